@@ -597,7 +597,7 @@ def _e1_bodies(b, cfg, other):
                         'kopf._cogs.configs.diffbase.StatusDiffBaseStorage.build', 'kopf._cogs.configs.diffbase.MultiDiffBaseStorage.build',
                         'kopf._cogs.configs.progress.AnnotationsProgressStorage.clear', 'kopf._cogs.configs.progress.StatusProgressStorage.clear',
                         'kopf._cogs.configs.progress.MultiProgressStorage.clear'],
-         props=['C04', 'C03', 'C15'],
+         props=['C04', 'C03', 'C15', 'C05'],
          clauses=['own_storage_writes_invisible', 'system_writes_invisible', 'other_operator_writes_invisible',
                   'stored_essence_is_fixpoint', 'everything_else_counts', 'pure'],
          universe='72 configurations {Annotations,Status,Smart,Multi progress} x {Annotations,Status,Multi diff-base} x prefixes '
@@ -749,7 +749,7 @@ def _status_touch_fields(cfg):
                          'kopf._cogs.configs.diffbase.StatusDiffBaseStorage.build', 'kopf._cogs.configs.diffbase.MultiDiffBaseStorage.build',
                          'kopf._cogs.configs.progress.AnnotationsProgressStorage.clear', 'kopf._cogs.configs.progress.StatusProgressStorage.clear',
                          'kopf._cogs.configs.progress.MultiProgressStorage.clear'],
-         props=['C04', 'C03', 'C15'],
+         props=['C04', 'C03', 'C15', 'C05'],
          clauses=['own_storage_writes_invisible', 'stored_essence_is_fixpoint', 'watched_status_changes_count',
                   'resource_references_invisible', 'ignored_field_changes_invisible', 'everything_else_counts', 'pure'],
          universe='(a) handlers interested in the status stanza itself: the 72 configurations of E1 x extra_fields {status; status.kopf; '
